@@ -2,6 +2,7 @@ package local
 
 import (
 	"bytes"
+	"io"
 
 	"github.com/buildbarn/bb-storage/pkg/blobstore/buffer"
 	"github.com/buildbarn/bb-storage/pkg/digest"
@@ -51,8 +52,13 @@ func (ib *inMemoryBlock) Put(sizeBytes int64) BlockPutWriter {
 	offsetBytes := ib.writeOffsetBytes
 	ib.writeOffsetBytes += int(sizeBytes)
 	return func(b buffer.Buffer) BlockPutFinalizer {
-		// Ingest data.
-		err := b.IntoWriter(bytes.NewBuffer(ib.data[offsetBytes:offsetBytes]))
+		// Ingest data. Hide bytes.Buffer's ReadFrom() method
+		// from io.Copy(), as it reallocates its storage whenever
+		// fewer than bytes.MinRead bytes of capacity remain,
+		// causing data to not end up in the block.
+		err := b.IntoWriter(struct{ io.Writer }{
+			bytes.NewBuffer(ib.data[offsetBytes : offsetBytes : offsetBytes+int(sizeBytes)]),
+		})
 		return func() (int64, error) {
 			return int64(offsetBytes), err
 		}
